@@ -658,7 +658,7 @@ def _uses_time(blocks):
     return any(s.get("ty") == "time.Duration" for b in blocks for s in b["specs"])
 
 
-def render_files(en, pkg="cs"):
+def render_files(en, pkg="cs", aux_separate=False):
     out = {}
     for i, f in enumerate(en["files"]):
         body = ["package %s\n" % pkg]
@@ -667,7 +667,7 @@ def render_files(en, pkg="cs"):
             body.append('import "time"\n')
         if i == en.get("typefile", 0):
             body.append("type %s %s\n" % (en["T"], en["kind"]))
-            if en.get("aux"):
+            if en.get("aux") and not aux_separate:
                 body.append("type Aux int\n")
         for b in f["blocks"]:
             body.append(render_block(b))
@@ -675,6 +675,8 @@ def render_files(en, pkg="cs"):
             inner = render_block(dict(b, paren=b.get("paren", True))).replace("\n", "\n\t").rstrip("\t")
             body.append("func verifLocal%d() {\n\t%s}\n" % (k, inner))
         out[f["name"]] = "\n".join(body)
+    if en.get("aux") and aux_separate:
+        out["zz_aux.go"] = "package %s\n\ntype Aux int\n" % pkg
     return out
 
 
@@ -1134,6 +1136,76 @@ def load_corpus(prop):
     return out
 
 
+def generated_files(written):
+    return {rel: content for rel, content in written.items() if ".shootenum" in rel and rel.endswith(".go")}
+
+
+RUN_MODES = ["type", "list", "file", "file-comp"]
+
+
+def layout(ctx, g, en, allow_file=True, force=None):
+    """How the observed enum sits in its package and what ONE shoot run generates besides it:
+      type       -type=T
+      list       -type=Comp,T     a companion enum type (own file, prefixed constants) is processed BEFORE T
+      file       -file=<file of T's type declaration>; T's const blocks are spread over several files when it has several
+      file-comp  the same with a companion enum type declared (and therefore listed and processed) before T in that file
+    The expectation for T is always its single-type model over ALL files of the package.
+    Mutates en (may split its blocks over a second file); returns dict(mode, files, sel, companion, extra)."""
+    rng = ctx.rng
+    T = en["T"]
+    listable = en["kind"] in LISTED_KINDS
+    r = rng.random()
+    if force:
+        mode = force
+    elif allow_file and listable and r < 0.4:
+        mode = "file" if r < 0.2 else "file-comp"
+    elif r < 0.7:
+        mode = "list"
+    else:
+        mode = "type"
+    if mode in ("file", "file-comp") and not listable:
+        mode = "list" if mode == "file-comp" else "type"
+    comp = None
+    comp_src = None
+    if mode in ("list", "file-comp"):
+        mine = set(_all_names(en)) | set(n for b in en.get("locals", []) for sp in b["specs"] for n in sp["names"])
+        for _ in range(80):
+            T2 = rng.choice([t for t in TYPE_NAMES + ["Shape", "Planet", "Unit"] if t.lower() != T.lower() and not t.startswith(T) and not T.startswith(t)])
+            c = g.enum("wf", "prefixed", kinds=LISTED_KINDS, T=T2)
+            if c.get("aux") or (set(_all_names(c)) & mine) or T2 in mine or T in _all_names(c):
+                continue
+            comp = c
+            break
+        if comp is None:
+            mode = "type" if mode == "list" else "file"
+        else:
+            comp_src = "type %s %s\n\n" % (comp["T"], comp["kind"]) + "\n".join(render_block(b) for f in comp["files"] for b in f["blocks"])
+    if mode in ("file", "file-comp"):
+        if len(en["files"]) == 1 and len(en["files"][0]["blocks"]) >= 2 and rng.random() < 0.85:
+            blocks = en["files"][0]["blocks"]
+            k = rng.randint(1, len(blocks) - 1)
+            en["files"][0]["blocks"] = blocks[:k]
+            en["files"].append({"name": "b.go", "blocks": blocks[k:]})
+            en["typefile"] = 0
+        files = render_files(en, aux_separate=True)
+        tf = en["files"][en.get("typefile", 0)]["name"]
+        sel = ["-file=" + tf]
+        if mode == "file-comp":
+            marker = "type %s %s\n" % (T, en["kind"])
+            assert marker in files[tf]
+            files[tf] = files[tf].replace(marker, comp_src + "\n" + marker, 1)
+    else:
+        files = render_files(en)
+        if mode == "list":
+            files["a0_comp.go"] = "package cs\n\n" + comp_src
+            sel = ["-type=%s,%s" % (comp["T"], T)]
+        else:
+            sel = ["-type=" + T]
+    extra = {"zz_comp.go": "package cs\n\n" + comp_src} if comp_src else {}
+    return {"mode": mode, "files": files, "sel": sel, "companion": comp, "extra": extra,
+            "nfiles": len(en["files"]), "spread": sum(1 for f in en["files"] if f["blocks"]) > 1}
+
+
 def generated_file(written):
     for rel, content in written.items():
         if ".shootenum" in rel and rel.endswith(".go"):
@@ -1151,13 +1223,14 @@ def write_pkg(d, files):
 
 
 def patch_undefined_map(src):
-    """substitute the defined `_<t>_string_map` for the undefined `_<t>_map` the -bit String loop reads"""
-    m = re.search(r"var (_\w+?)_string_map = ", src)
-    if not m:
-        return src, False
-    p = m.group(1)
-    new = re.sub(re.escape(p) + r"_map\[", p + "_string_map[", src)
-    return new, new != src
+    """substitute the defined `_<t>_string_map` for the undefined `_<t>_map` the -bit String loop reads
+    (for every enum type in the file: a -file / -type=A,B run emits several)"""
+    changed = False
+    for p in set(re.findall(r"var (_\w+?)_string_map = ", src)):
+        new = re.sub(re.escape(p) + r"_map\[", p + "_string_map[", src)
+        changed = changed or new != src
+        src = new
+    return src, changed
 
 
 def compile_class(msg):
